@@ -181,6 +181,13 @@ def gen_c07_case(rng):
 C08_EXTRA = [["--checksum", "--checksum-db", "true"], ["--use-cache", "true"], ["--clear-cache"], ["--clean-state"], ["--resume", "true"],
              ["--checksum", "--checksum-db", "true", "--clear-checksum-db"], ["--diff"], []]
 
+_CNT = ("files_created", "files_updated", "files_skipped", "files_deleted", "bytes_transferred")
+K_FIELDS = {
+    "C01": {"exit", "dst", "inode-classes"}, "C02": {"dst"}, "C03": {"dst", "events", *_CNT}, "C05": {"exit", "dst", "inode-classes"},
+    "C06": {"exit", "dst", "events"}, "C07": {"exit", "dst"}, "C08": {"exit", "dst", "events", *_CNT}, "C10": {"exit", "errors", "dst"},
+    "C17": {"dst"}, "C19": {"events", "errors", "dst", *_CNT}, "C13": {"dst", "inode-classes"},
+}
+
 def excluded_bits(tree_paths, isdir, excl):
     """literal-name rules only (python mirror of FilterRule::matches for patterns without wildcards):
     NAME -> basename equality; NAME/ -> a directory named NAME and everything below any ancestor named NAME."""
@@ -320,6 +327,11 @@ def one_case(rep, drv, contents, focus, ci, seed, case_dir, src_root, dst_root, 
             diff = {r: (rc_.get(r), mc.get(r)) for r in set(mc) | set(rc_) if mc.get(r) != rc_.get(r)}
             dis.append(("dst", dict(list(sorted(diff.items()))[:6]), None))
         elif mi != ri: dis.append(("inode-classes", ri, mi))
+    # a check compares the fields its property speaks about (a disagreement elsewhere is another property's business
+    # and is decided by that property's check on the same generators)
+    rel = K_FIELDS.get(focus)
+    if rel is not None:
+        dis = [d for d in dis if d[0] in rel or d[0] in ("timeout", "no-summary")]
     if dis:
         rep.disagree({"what": [d[0] for d in dis], "details": [repr(d)[:500] for d in dis], "stderr": err[-300:], **desc})
 
